@@ -288,3 +288,22 @@ Theorem C03_probing_order_table_is_table : forall (val : entry -> Z) (t : atable
     forall k, hash_key k <> 0 -> (forall ke, In ke l -> hash_key (fst ke) = hash_key k -> fst ke = k) ->
       find buckets (ideal_of DivMod buckets) (next_of DivMod buckets) tb (hash_key k) = Ok (option_map val (Defs.alookup l k)).
 Proof. exact probing_order_table_is_table. Qed.
+
+(* ---- the table READ BACK FROM THE MEMORY satisfies the loaders' invariants (C03/TrieEndToEnd.v, TrieDecode.v) ------------------------
+   mem_table k = the entry decoded from what TrieSearch's lookup finds for k in the memory laid out from the table t: the probability
+   from its float32 pattern, the back-off or its extension marker, "extends left" = the child range is not empty.  For every table t
+   that satisfies TInv for an ARPA model M (what both loader models are PROVED to establish: C01_load_trie_inv, _nounk) with distinct keys,
+   the word ids 0..V-1 as its unigrams, scores in the exactly representable range and non-positive beyond unigrams (a proper model),
+   no back-off at the highest order and fewer than 2^57 key words: mem_table satisfies TInv for M as well.  Every theorem of C01, C02
+   and C08 is stated for an arbitrary table with TInv -- so they all hold for the answers computed from the bit-level memory of a
+   `trie` (array = false) or `trie -a` (array = true) model. *)
+From Kenlm Require Import LM.QueryProofs C03.TrieEndToEnd.
+Theorem C03_memory_table_invariants : forall (array : bool) cfg n V (t : atable) pz M,
+  (2 <= n)%nat -> 0 <= V < 2 ^ 32 -> 0 <= cfg -> TInv n (alookup t) M -> NoDup (map fst t) ->
+  (forall w, alookup t [w] <> None <-> Z.of_N w < V) ->
+  (forall k e, alookup t k = Some e -> - 2 ^ 24 < e_prob e < 2 ^ 24 /\ - 2 ^ 24 < e_bo e < 2 ^ 24) ->
+  (forall k e, alookup t k = Some e -> (2 <= length k)%nat -> e_prob e <= 0) ->
+  (forall k e, alookup t k = Some e -> length k = n -> e_bo e = 0) ->
+  Z.of_nat (n * length t) < 2 ^ 57 ->
+  TInv n (mem_table array cfg n V t pz) M.
+Proof. exact mem_table_TInv. Qed.
